@@ -48,7 +48,7 @@ SPECS["C12"] = dict(
         "Woodpile.Props.C12.std_search_ok",
         "Woodpile.Props.C12.find_sound",
     ],
-    families=[dict(name="tlvview", quick=3000, thorough=400000)],
+    families=[dict(name="tlvview", quick=3000, thorough=1500000)],
     technique="Lean 4 proof (all byte strings; checked slicing so that panic-freedom is a theorem) + model/implementation correspondence",
     design_ref="DESIGN.md section 5, C12",
     level_text=("Kernel-checked theorems about a Lean model of rough_tlv's MessageView (Woodpile.RoughTlv: View.new and every "
